@@ -611,6 +611,9 @@ PPL::CO_Tree::init(const dimension_type n) {
   size_ = 0;
   reserved_size = 0;
   max_depth = 0;
+  // If one of the allocations below throws, *this is the empty tree:
+  // its cached end iterators must not keep pointing into the old arrays.
+  refresh_cached_iterators();
 
   if (n > 0) {
     const dimension_type max_d = integer_log2(n) + 1;
